@@ -453,6 +453,8 @@ class ParameterIndependence:
                 "atom 0 moved by a lattice vector": _native_E(a, pos + np.array([[1, -2, 1]] + [[0, 0, 0]] * (nat - 1)) @ a, Z),
                 "atom 0 moved by several lattice vectors": _native_E(a, pos + np.array([[3, -4, 2]] + [[0, 0, 0]] * (nat - 1)) @ a, Z),
                 "dilation by 1.3 (times 1.3)": 1.3 * _native_E(1.3 * a, 1.3 * pos, Z),
+                "lattice vectors listed in another order (left-handed set)": _native_E(a[[1, 0, 2]], pos, Z),
+                "one lattice vector inverted (left-handed set)": _native_E(a * np.array([[1], [1], [-1]]), pos, Z),
                 "2x1x1 supercell (half)": 0.5 * _native_E(a * np.array([[2], [1], [1]]), np.vstack([pos, pos + a[0]]), np.concatenate([Z, Z])),
             }
             for name, e in checks.items():
